@@ -82,7 +82,9 @@ var Sinks = []Sink{
 		Make: plain(func(s string) templ.Component { return StyleKVKey(s) })},
 	{Name: "StyleSafeCSS", Kind: "style", Expect: styleExpect(func(s string) []any { return []any{templ.SafeCSS(s)} }),
 		Make: plain(func(s string) templ.Component { return StyleSafeCSS(s) })},
-	{Name: "StyleSafeProp", Kind: "style", Expect: styleExpect(func(s string) []any { return []any{map[string]templ.SafeCSSProperty{"color": templ.SafeCSSProperty(s)}} }),
+	{Name: "StyleSafeProp", Kind: "style", Expect: styleExpect(func(s string) []any {
+		return []any{map[string]templ.SafeCSSProperty{"color": templ.SafeCSSProperty(s)}}
+	}),
 		Make: plain(func(s string) templ.Component { return StyleSafeProp(s) })},
 	{Name: "StyleFontQuoted", Kind: "style", Expect: styleExpect(func(s string) []any { return []any{map[string]string{"font-family": "\"" + s + "\""}} }),
 		Make: plain(func(s string) templ.Component { return StyleFontQuoted(s) })},
@@ -92,7 +94,9 @@ var Sinks = []Sink{
 		Make: plain(func(s string) templ.Component { return StyleBgURLQuoted(s) })},
 	{Name: "StyleBgURL", Kind: "style", Expect: styleExpect(func(s string) []any { return []any{map[string]string{"background-image": "url(" + s + ")"}} }),
 		Make: plain(func(s string) templ.Component { return StyleBgURL(s) })},
-	{Name: "StyleMulti", Kind: "style", Expect: styleExpect(func(s string) []any { return []any{"margin:0", map[string]string{"width": s}, templ.KV("color:red", true)} }),
+	{Name: "StyleMulti", Kind: "style", Expect: styleExpect(func(s string) []any {
+		return []any{"margin:0", map[string]string{"width": s}, templ.KV("color:red", true)}
+	}),
 		Make: plain(func(s string) templ.Component { return StyleMulti(s) })},
 	{Name: "HrefURL", Kind: "href", Expect: func(s string) string { return string(templ.URL(s)) },
 		Make: plain(func(s string) templ.Component { return HrefURL(s) })},
